@@ -215,6 +215,41 @@ fn gen_go(rng: &mut Rng, pos: &Pos, cost_node_ns: u64, explosive: bool) -> Strin
     }
 }
 
+/// Same placement and side to move, one other component different; valid; None if the
+/// position has no such neighbour.
+fn lookalike_of(rng: &mut Rng, p: &Pos) -> Option<Pos> {
+    let mut cands = vec![];
+    if p.ep.is_some() {
+        let mut q = p.clone();
+        q.ep = None;
+        cands.push(q);
+    }
+    let r = if p.white_to_move { 5 } else { 2 };
+    for f in 0..8 {
+        let e = sq(f, r);
+        if Some(e) != p.ep {
+            let mut q = p.clone();
+            q.ep = Some(e);
+            if q.is_valid() {
+                cands.push(q);
+            }
+        }
+    }
+    for i in 0..4 {
+        let mut q = p.clone();
+        q.castle[i] = !q.castle[i];
+        if q.is_valid() {
+            cands.push(q);
+        }
+    }
+    cands.retain(|q| !q.legal_moves().is_empty());
+    if cands.is_empty() {
+        None
+    } else {
+        Some(rng.pick(&cands).clone())
+    }
+}
+
 struct GuiState {
     rng: Rng,
     games_left: u64,
@@ -228,6 +263,7 @@ struct GuiState {
     explosive_game: bool,
     earlier_roots: Vec<String>,
     quit_sent: bool,
+    lookalike: Option<Pos>,
 }
 
 pub fn generate_and_run(seed: u64) -> (Scenario, LoopReport) {
@@ -261,6 +297,7 @@ pub fn generate_and_run(seed: u64) -> (Scenario, LoopReport) {
         explosive_game: false,
         earlier_roots: vec![],
         quit_sent: false,
+        lookalike: None,
     }));
     let g2 = gs.clone();
     let next = Box::new(move |view: &GuiView| -> Option<String> {
@@ -285,6 +322,12 @@ pub fn generate_and_run(seed: u64) -> (Scenario, LoopReport) {
                     // or an earlier game's start (stale tables)
                     let (root, pos) = if g.explosive_game {
                         let p = if g.rng.chance(1, 2) { Pos::from_fen(*g.rng.pick(gen::EXPLOSIVE_FENS)).unwrap() } else { gen::promotion_race(&mut g.rng) };
+                        (format!("fen {}", crate::sworld::fen_for_search(&p)), p)
+                    } else if g.lookalike.is_some() && g.rng.chance(1, 2) {
+                        // a look-alike of the position searched last: same placement and side,
+                        // one other component changed (ep square / a castling right); a hash
+                        // that misses the component hands this search the other one's move
+                        let p = g.lookalike.take().unwrap();
                         (format!("fen {}", crate::sworld::fen_for_search(&p)), p)
                     } else if !g.earlier_roots.is_empty() && g.rng.chance(1, 4) {
                         let r = g.rng.pick(&g.earlier_roots).clone();
@@ -328,6 +371,9 @@ pub fn generate_and_run(seed: u64) -> (Scenario, LoopReport) {
                 }
                 2 => {
                     g.phase = 3;
+                    if let Some(l) = lookalike_of(&mut g.rng, &g.pos) {
+                        g.lookalike = Some(l);
+                    }
                     return Some(gen_go(&mut g.rng, &g.pos, g.cost_node_ns, g.explosive_game));
                 }
                 _ => {
